@@ -200,6 +200,11 @@ func (c *Ctx) store(st *State, l *Loc, v *Term) {
 		}
 	case LProj:
 		pv := c.load(st, l.Parent)
+		if len(pv.S) > 160 {
+			// name the aggregate: it is repeated once per field below, and nested element-wise initialisation of a
+			// composite literal would otherwise grow the term exponentially
+			pv = c.define("agg", pv)
+		}
 		if l.Index != nil {
 			c.store(st, l.Parent, tStore(pv, l.Index, v))
 			return
@@ -283,11 +288,26 @@ func (c *Ctx) freshVal(st *State, g *Term, t types.Type, hint string) Val {
 
 // assumeAllocated: any reference obtained from memory or a call was allocated before now.
 func (c *Ctx) assumeAllocated(st *State, g *Term, t types.Type, v *Term) {
-	switch t.Underlying().(type) {
+	c.assumeAllocatedD(st, g, t, v, 0)
+}
+
+func (c *Ctx) assumeAllocatedD(st *State, g *Term, t types.Type, v *Term, depth int) {
+	switch u := t.Underlying().(type) {
 	case *types.Pointer, *types.Map:
 		c.assumeG(g, tLe(v, c.heapGet(st, c.allocName())))
 	case *types.Slice:
 		c.assumeG(g, tLe(mk(SInt, "(s.arr "+v.S+")"), c.heapGet(st, c.allocName())))
+	case *types.Struct:
+		// references held in the fields of a struct value exist as well
+		if depth >= 2 || u.NumFields() > 24 || !strings.HasPrefix(string(c.sortOf(t)), "S.") {
+			return
+		}
+		for i := 0; i < u.NumFields(); i++ {
+			switch u.Field(i).Type().Underlying().(type) {
+			case *types.Pointer, *types.Map, *types.Slice, *types.Struct:
+				c.assumeAllocatedD(st, g, u.Field(i).Type(), c.structField(t, v, i), depth+1)
+			}
+		}
 	}
 }
 
